@@ -110,8 +110,8 @@ def _random_scenarios(pid, rng, n, *, costs=False, findings=False) -> List[Dict[
     while len(scs) < n:
         dim = rng.choice([1, 1, 2])
         arch = pitgen.random_arch(rng, dim=dim, max_nodes=rng.randint(2, 8), allow_excl=findings and rng.random() < 0.5,
-                                  kernels=(1, 2, 3, 4, 5, 7, 9))
-        if not any(nd["op"] in ("conv", "lin") and not nd["excl"] for nd in arch["nodes"]):
+                                  kernels=(1, 2, 3, 4, 5, 7, 9), standalone_bn=True, explicit_sym_pad=True)
+        if not any(nd["op"] in ("conv", "lin") and not nd["excl"] for nd in arch["nodes"]) or pitgen.rejected_fusion(arch):
             continue
         # (time masks on explicitly, symmetrically padded layers: outside C01's domain, inside that of the others)
         m = pitgen.random_masks(rng, arch, p_prune=rng.choice([0.2, 0.5, 0.8]), noncausal_time=(pid != "C01"))
@@ -128,8 +128,9 @@ def _trained_scenarios(pid, rng, n, *, costs=False) -> List[Dict[str, Any]]:
     scs = []
     while len(scs) < n:
         dim = rng.choice([1, 1, 2])
-        arch = pitgen.random_arch(rng, dim=dim, max_nodes=rng.randint(3, 8), kernels=(1, 2, 3, 4, 5, 7, 9))
-        if not any(nd["op"] in ("conv", "lin") and not nd["excl"] for nd in arch["nodes"]):
+        arch = pitgen.random_arch(rng, dim=dim, max_nodes=rng.randint(3, 8), kernels=(1, 2, 3, 4, 5, 7, 9),
+                                  standalone_bn=True, explicit_sym_pad=True)
+        if not any(nd["op"] in ("conv", "lin") and not nd["excl"] for nd in arch["nodes"]) or pitgen.rejected_fusion(arch):
             continue
         sc = {"arch": arch, "fold": rng.random() < 0.4, "seed": rng.randrange(10 ** 6), "alive": {}, "tm": {},
               "train": {"steps": rng.randint(1, 8), "lr": rng.choice([0.05, 0.2, 0.5, 2.0]),
@@ -148,8 +149,9 @@ def _c08_adversarial(rng, n) -> List[Dict[str, Any]]:
     from ..archgen import shapes
     while len(scs) < n:
         dim = rng.choice([1, 1, 2])
-        arch = pitgen.random_arch(rng, dim=dim, max_nodes=rng.randint(2, 7), kernels=(1, 2, 3, 4, 5, 6, 7, 8, 9))
-        if not any(nd["op"] in ("conv", "lin") and not nd["excl"] for nd in arch["nodes"]):
+        arch = pitgen.random_arch(rng, dim=dim, max_nodes=rng.randint(2, 7), kernels=(1, 2, 3, 4, 5, 6, 7, 8, 9),
+                                  standalone_bn=True, explicit_sym_pad=True)
+        if not any(nd["op"] in ("conv", "lin") and not nd["excl"] for nd in arch["nodes"]) or pitgen.rejected_fusion(arch):
             continue
         sh = shapes(arch)
         alpha, tmraw = {}, {}
